@@ -17,7 +17,7 @@ EXTRA = {
     "C03": "Also: factors of mixed real/complex kinds; weighting (non 0/1) masks; 2-D weights and partially invalid PARAFAC2 projections must be rejected; rejection demanded of every conversion of a plain PARAFAC2 tuple (tensor, slices, single slice, unfolded, vec) and of cp_to_vec.",
     "C04": "Also: input decomposition unchanged with copy=True; ragged generic slices for SVD compression; per-factor scales 1e-19..1e+19; mdotchain: every sequence of 2 (thorough 3) mode products on ONE CPTensor/TuckerTensor object (function/method x copy x operand that changes the mode size), continuing on the returned object or on the argument a copy=False step updated in place.",
     "C05": "Also: graded low-rank spectra; data units 1e-9 / 1e+9.",
-    "C06": "Also: size-1 modes; callback that ends the run; mask x sparsity; negative fixed modes; verbose and estimator-class variants; memory of the previous iterate for masked HOOI.",
+    "C06": "Also: size-1 modes; callback that ends the run; mask x sparsity; negative fixed modes; verbose and estimator-class variants; memory of the previous iterate for masked HOOI; mask x line search for CP-ALS.",
     "C07": "Also: memory-efficient MTTKRP registered as backend method; hals_nnls flags nonzero_rows / exact; HOOI with a randomised-SVD generator on a (9,4,4) tensor.",
     "C08": "Also: user initialisation with non-unit weights; einsum backend; Parafac2 class with its defaults; exceptions on valid requests are violations (whitelist of documented refusals); TT ranks clipped by sizes only; CMTF normalised outputs represent the un-normalised tensors.",
     "C09": "Also: TensorRing class; Tucker under the einsum backend; two-call histories sharing the rank list; int64 input.",
@@ -25,11 +25,11 @@ EXTRA = {
     "C11": "Also: falsy list placeholders; NumPy-scalar parameter values; zero-sweep budget; fixed constrained modes; einsum backend and class API.",
     "C12": "Also: one-column matrices (shape must be preserved for matrix inputs); parameters and flags as NumPy scalars.",
     "C13": "Also: cold and warm starts, l1 / ridge / both, designs with all-nonpositive least-squares solutions.",
-    "C14": "Also: estimator classes; einsum backend; weights mixing exact ones with other values; constraints whose prox moves the initialisation; the last mode listed together with others.",
+    "C14": "Also: estimator classes; einsum backend; weights mixing exact ones with other values; constraints whose prox moves the initialisation; the last mode listed together with others; masked Tucker warm start fitting the observed entries exactly is a fixed point whatever the hidden entries hold.",
     "C15": "Also: array-valued hyper-parameters (0-d arrays, 1-d coefficient arrays, float defaults passed explicitly); every position of the contracted mode.",
-    "C16": "Also: complex input; 240x260 matrices; callable SVDs; estimators rebuilt from get_params / configured by set_params; same-object refits.",
+    "C16": "Also: complex input; 240x260 matrices; callable SVDs; estimators rebuilt from get_params / configured by set_params; same-object refits; integers outside NumPy's seed range handled identically on every call.",
     "C18": "Also: data units 1e-9 / 1e6; mask x line search; CP weights of complex data must be complex.",
-    "C19": "Also: refit and failed-refit histories; fit_transform outputs scribbled on by the caller; verbose fits; 1030-sample predictions; zero-channel data; einsum backend.",
+    "C19": "Also: refit and failed-refit histories; fit_transform outputs scribbled on by the caller; verbose fits; 1030-sample predictions; zero-channel data; einsum backend; PLSR fits stopped by a loose tolerance (transform == stored scores).",
     "C20": "Also: per-method semantics when only some modes are equivalent; zero-row factor matrices; column scalings 1e-6..1e3; factor sets handed over as tuples (a 2-tuple must not be read as (weights, factors)).",
 }
 
